@@ -48,7 +48,7 @@ def decide(pid, tier, units, scratch, run_unit):
     solver_s = 0.0
     for u, r in results:
         mine = [o for o in r.get('obligations', []) if belongs(o, u, pid)]
-        fails = [o for o in mine if o['status'] != 'SUCCESS']
+        fails = [o for o in mine if o['status'] == 'FAILURE']
         kfail = []
         for o in fails:
             kid = o.get('known') or (r.get('known') if r.get('known_all') else None)
